@@ -377,7 +377,7 @@ func bucket(n int) int {
 	return b
 }
 
-func btreePhase(r *ev.Run, rng *rand.Rand) {
+func btreePhase(r *ev.Run, rng *rand.Rand) bool {
 	degrees := []int{2, 3, 4, 5, 8, 16, 32, 64}
 	if r.Thorough() {
 		degrees = []int{2, 3, 4, 5, 6, 7, 8, 11, 16, 24, 32, 48, 64}
@@ -397,9 +397,10 @@ func btreePhase(r *ev.Run, rng *rand.Rand) {
 			}
 			nops := r.Pick(2500, 12000)
 			if !btreeHistory(r, rng, d, universe, nops) {
-				return
+				return false
 			}
 			r.Count("btree_histories", 1)
 		}
 	}
+	return true
 }
